@@ -280,3 +280,75 @@ package sio
 //@ func (*eventHandlerStore).offAll
 //@   opt safety off
 //@   modifies mapof(e.events), mapof(e.eventsOnce)
+
+// ---------------------------------------------------------------------------------------------
+// C03: acknowledgements. The reply path (call) and the timer path exclude each other through the two flags,
+// tested and set in ONE critical section each; whoever wins invokes the user's callback exactly once.
+//@ type ackHandler
+//@   monitor mu: !(this.called && this.timedOut) [C03.mon.exclusive]
+
+//@ func (*ackHandler).call
+//@   opt safety off
+//@   ghost invoked int = 0
+//@   ghost locks int = 0
+//@   callsite Lock
+//@     update locks = locks + 1
+//@   callsite Call
+//@     requires f.called [C03.call.flagfirst]
+//@     update invoked = invoked + 1
+//@   ensures locks == 1 [C03.call.atomic]
+//@   ensures old(f.timedOut) ==> invoked == 0 && err == nil [C03.call.aftertimeout]
+//@   ensures !old(f.timedOut) ==> invoked == 1 [C03.call.fires]
+
+// The timer: fires the callback with ErrAckTimeout exactly when no reply has been taken, and never after one.
+//@ func newAckHandlerWithTimeout$1
+//@   opt safety off
+//@   requires h != nil
+//@   ghost invoked int = 0
+//@   ghost purged int = 0
+//@   ghost locks int = 0
+//@   callsite Lock
+//@     update locks = locks + 1
+//@   callsite timeoutFunc skip
+//@     requires h.timedOut [C03.timeout.flagfirst]
+//@     update purged = purged + 1
+//@   callsite Call
+//@     requires h.timedOut && purged == 1 [C03.timeout.order]
+//@     update invoked = invoked + 1
+//@   ensures locks == 1 [C03.timeout.atomic]
+//@   ensures old(h.called) ==> invoked == 0 && purged == 0 [C03.timeout.exclusive]
+//@   ensures !old(h.called) ==> invoked == 1 [C03.timeout.fires]
+
+// A reply is looked up and removed in one critical section, before the handler is called: a second ACK with
+// the same id finds nothing (at most once per registered callback); the values handed over are those decoded
+// from this very packet.
+//@ func (*clientSocket).onAck
+//@   opt safety off
+//@   requires header != nil && s.acks != nil
+//@   ghost called int = 0
+//@   callsite (*ackHandler).call
+//@     requires !(*header.ID in s.acks) [C03.cli.onack.delete]
+//@     requires recv == old(s.acks[*header.ID]) [C03.cli.onack.handler]
+//@     update called = called + 1
+//@   callsite decode skip   // assumption: decoding the reply's arguments does not touch the socket's ack table
+//@   ensures called <= 1 [C03.cli.onack.once]
+
+//@ func (*serverSocket).onAck
+//@   opt safety off
+//@   requires header != nil && s.acks != nil
+//@   ghost called int = 0
+//@   callsite (*ackHandler).call
+//@     requires !(*header.ID in s.acks) [C03.srv.onack.delete]
+//@     requires recv == old(s.acks[*header.ID]) [C03.srv.onack.handler]
+//@     update called = called + 1
+//@   callsite decode skip   // assumption: decoding the reply's arguments does not touch the socket's ack table
+//@   ensures called <= 1 [C03.srv.onack.once]
+
+// The purge run by the timer before the callback: it must not panic (a panic is swallowed by the timer's recover,
+// the callback would never fire and sendBufferMu would stay locked); afterwards no buffered frame waits for that ack.
+//@ func (*clientSocket).registerAckHandler$1
+//@   requires s != nil && s.debug != nil && s.acks != nil
+//@   ensures forall k int :: 0 <= k && k < len(s.sendBuffer) ==> !(s.sendBuffer[k].ackID != nil && *s.sendBuffer[k].ackID == id) [C03.purge.removed]
+//@   ensures len(s.sendBuffer) <= old(len(s.sendBuffer)) [C03.purge.shrinks]
+//@   loop 0 invariant arr(kept) == arr(old(s.sendBuffer)) && off(kept) == off(old(s.sendBuffer)) && cap(kept) == cap(old(s.sendBuffer)) && 0 <= len(kept) && len(kept) <= rangeindex + 1 [C03.purge.inv.inplace]
+//@   loop 0 invariant forall k int :: 0 <= k && k < len(kept) ==> !(kept[k].ackID != nil && *kept[k].ackID == id) [C03.purge.inv.removed]
